@@ -14,10 +14,13 @@ RULE = ("acyclic definition sets (constants, enums, typedefs, structs, unions re
         "random permutations up to |D| = 14; prophyc runs under a line-event budget; the returned node list must be a "
         "permutation of D with every node after all its true dependencies (known from the generator), the generated "
         "Python module must import, and every type's (size, alignment, kind) must be identical across permutations and "
-        "equal to the reference layout. distinct = (DAG shape signature, permutation)")
+        "equal to the reference layout. The same for C++ headers through --sack (typedefs, enums, structs with scalar / "
+        "nested / fixed-array members sized by literals and enumerators, unions) in random dependency-respecting orders. "
+        "distinct = (DAG shape signature, permutation)")
 ASSUMPTIONS = [
     "true dependencies come from the generator's own bookkeeping, not from prophyc.model.dependencies()",
-    "sack (libclang) inputs are not driven: C15 is decided for isar, whose order-independence sack shares",
+    "sack inputs are C++: only orders in which every definition follows what it uses exist; typedefs dissolve, union "
+    "arms are numbered from 0 - the prophy IR expected from a header is built on these (observed) conventions",
 ]
 TIMEOUT = {'quick': 1500, 'thorough': 10800}
 
@@ -268,6 +271,159 @@ def check_perm(acc, stepper, calib, wd, idx, sch, deps, order, w, ref_layouts, e
     return names
 
 
+CPP_SCALARS = {'uint8_t': 'u8', 'uint16_t': 'u16', 'uint32_t': 'u32', 'uint64_t': 'u64', 'int8_t': 'i8',
+               'int16_t': 'i16', 'int32_t': 'i32', 'int64_t': 'i64', 'float': 'r32', 'double': 'r64'}
+
+
+def gen_sack_dag(rng, n):
+    """C++ definitions (sack input) in a valid order: name -> (kind, C++ text), true dependencies, and the prophy
+    IR the sack front-end must arrive at (typedefs dissolve, union arms are numbered from 0, enumerators keep values)."""
+    text, deps, kinds = {}, {}, {}
+    ir = {}
+    alias = {}            # C++ name usable as a member type -> IR type name
+    usable = []           # names usable as member types
+    enum_consts = []      # (enum name, enumerator, value) with small values, usable as array extents
+    order = []
+    for i in range(n):
+        k = rng.choice(['typedef', 'enum', 'struct', 'struct', 'union'] if i else ['enum', 'struct'])
+        name = 'K%d' % i
+        d = set()
+
+        def pick():
+            if usable and rng.random() < 0.6:
+                t = rng.choice(usable)
+                d.add(t)
+                return t, alias[t]
+            c = rng.choice(sorted(CPP_SCALARS))
+            return c, CPP_SCALARS[c]
+        if k == 'typedef':
+            t, irt = pick()
+            text[name] = 'typedef %s %s;' % (t, name)
+            alias[name] = irt
+            usable.append(name)
+        elif k == 'enum':
+            vals = rng.sample(range(0, 12), rng.randint(1, 3))
+            mem = [('%s_%d' % (name, j), v) for j, v in enumerate(vals)]
+            text[name] = 'enum %s { %s };' % (name, ', '.join('%s = %d' % m for m in mem))
+            ir[name] = S.Enum(name, mem)
+            alias[name] = name
+            usable.append(name)
+            enum_consts.extend((name, en, v) for en, v in mem if 1 <= v <= 5)
+        else:
+            mem, lines = [], []
+            for j in range(rng.randint(1, 4)):
+                t, irt = pick()
+                if k == 'struct' and rng.random() < 0.35:
+                    if enum_consts and rng.random() < 0.5:
+                        e, en, v = rng.choice(enum_consts)
+                        d.add(e)
+                        lines.append('    %s m%d[%s];' % (t, j, en))
+                    else:
+                        v = rng.randint(1, 4)
+                        lines.append('    %s m%d[%d];' % (t, j, v))
+                    mem.append(S.Member('m%d' % j, irt, S.FIXED, v))
+                else:
+                    lines.append('    %s m%d;' % (t, j))
+                    mem.append(S.Member('m%d' % j, irt))
+            text[name] = '%s %s\n{\n%s\n};' % (k, name, '\n'.join(lines))
+            ir[name] = S.Struct(name, mem) if k == 'struct' else S.Union(name, [(j, m.type, m.name) for j, m in enumerate(mem)])
+            alias[name] = name
+            usable.append(name)
+        kinds[name] = k
+        deps[name] = d
+        order.append(name)
+    return order, text, deps, kinds, ir
+
+
+def topological_shuffle(rng, order, deps):
+    """A random order in which every definition still follows what it uses (C++ needs that)."""
+    left, out = list(order), []
+    while left:
+        ready = [n for n in left if deps[n] <= set(out)]
+        n = rng.choice(ready)
+        out.append(n)
+        left.remove(n)
+    return out
+
+
+def run_sack_set(acc, wd, idx0, rng, nperm):
+    order, text, deps, kinds, ir = gen_sack_dag(rng, rng.randint(4, 10))
+    structs = [n for n in order if kinds[n] == 'struct']
+    if not structs:
+        return
+    # IR in declaration order, for the reference layout of whatever is emitted
+    sch = S.Schema([ir[n] for n in order if n in ir])
+    w = W.Wire(sch)
+    ref_lay = {n: w.tinfo(n)[:2] for n in ir if kinds[n] in ('struct', 'union')}
+    seen = {}
+    import importlib
+    import sys
+    import prophyc.model as M
+    for pi in range(nperm):
+        perm = order if pi == 0 else topological_shuffle(rng, order, deps)
+        d = os.path.join(wd, 'k%d_%d' % (idx0, pi))
+        pkg = 'c15k%d_%d_%d' % (os.getpid(), idx0, pi)
+        os.makedirs(os.path.join(d, pkg))
+        open(os.path.join(d, pkg, '__init__.py'), 'w').close()
+        src = os.path.join(d, 'sch.hpp')
+        with open(src, 'w') as f:
+            f.write('#include <stdint.h>\n' + '\n'.join(text[n] for n in perm) + '\n')
+        exc, _, nodes = pc.run_main(['--quiet', '--sack', '--python_out', os.path.join(d, pkg), src])
+        acc.ev()
+        acc.count('sack_permutations_compiled')
+        acc.sig(('sack', tuple(sorted((kinds[n], len(deps[n])) for n in order)), tuple(perm)))
+
+        def witness(**kw):
+            wit = {'front_end': 'sack', 'order': perm, 'header': open(src).read()[:5000],
+                   'true_dependencies': {k: sorted(v) for k, v in deps.items()}}
+            wit.update(kw)
+            return wit
+        if exc is not None:
+            acc.violation(PROP, 'sack:compile-fails:%s:%s' % (pc.classify(exc), type(exc).__name__),
+                          witness(error='%s: %s' % (type(exc).__name__, str(exc)[:500])))
+            continue
+        lst = nodes['sch']
+        names = [x.name for x in lst]
+        if len(set(names)) != len(names) or not set(structs) <= set(names) or not set(names) <= set(ir):
+            acc.violation(PROP, 'sack:output-is-not-the-set-of-definitions', witness(output=names, structs=structs))
+            continue
+        pos = {x: i for i, x in enumerate(names)}
+        broken = [(x, dep) for x in names for dep in true_ir_deps(ir[x]) if dep in pos and pos[dep] > pos[x]]
+        missing = [(x, dep) for x in names for dep in true_ir_deps(ir[x]) if dep not in pos]
+        if broken or missing:
+            acc.violation(PROP, 'sack:node-emitted-before-its-dependency' if broken else 'sack:dependency-not-emitted',
+                          witness(output=names, pairs=(broken or missing)[:5]))
+            continue
+        if d not in sys.path:
+            sys.path.insert(0, d)
+        importlib.invalidate_caches()
+        try:
+            with pyrt.quiet():
+                importlib.import_module(pkg + '.sch')
+        except BaseException as e:  # noqa
+            acc.violation(PROP, 'sack:generated-module-does-not-import:%s' % type(e).__name__,
+                          witness(output=names, error='%s: %s' % (type(e).__name__, str(e)[:300])))
+            continue
+        lay = {x.name: (x.byte_size, x.alignment) for x in lst if isinstance(x, (M.Struct, M.Union))}
+        bad = [k for k in lay if lay[k] != ref_lay[k]]
+        if bad or (seen and (sorted(names) != seen['names'] or lay != seen['lay'])):
+            acc.violation(PROP, 'sack:layout-or-definition-set-differs-between-orders-or-from-reference',
+                          witness(output=names, types=bad, got={k: lay[k] for k in bad}, reference={k: ref_lay[k] for k in bad},
+                                  first_order_output=seen.get('names')))
+            continue
+        seen.setdefault('names', sorted(names))
+        seen.setdefault('lay', lay)
+        acc.count('sack_orders_verified')
+
+
+def true_ir_deps(d):
+    if d.kind == 'struct':
+        return set(m.type for m in d.members if m.type not in S.INTS and m.type not in S.FLOATS)
+    if d.kind == 'union':
+        return set(a[1] for a in d.arms if a[1] not in S.INTS and a[1] not in S.FLOATS)
+    return set()
+
+
 def run_shard(spec):
     acc = Acc()
     stepper = pc.Stepper()
@@ -313,6 +469,8 @@ def run_shard(spec):
                 names = [d.name for d in sch.defs]
                 run_set(sch, deps, list(itertools.permutations(names)), True)
                 acc.count('definition_sets_with_all_permutations')
+            for k in range(spec.get('sack', 2)):
+                run_sack_set(acc, wd, k, rng, spec.get('sack_perms', 6))
             for k in range(spec['large']):
                 n = rng.randint(6, 14)
                 sch, deps = gen_dag(rng, n)
@@ -333,6 +491,7 @@ def finish(ctx, merged, specs):
         return
     merged['exhaustive'] = False
     merged['exhaustive_note'] = 'all permutations of every generated definition set with <= 5 definitions were compiled'
-    missing = [k for k in ('permutations_compiled', 'definition_sets_with_all_permutations') if not merged['counters'].get(k)]
+    missing = [k for k in ('permutations_compiled', 'definition_sets_with_all_permutations', 'sack_orders_verified')
+               if not merged['counters'].get(k)]
     if missing and not merged['inconclusive']:
         merged['inconclusive'] = 'coverage floor not met: %s' % missing
